@@ -629,7 +629,7 @@ def check_C10(tier):
             sc.added_stream_waits("C10w", caps=caps[:2]))
     # a futures stream created by add_stream that is never woken does not "deliver every value from there on"
     # a panic of a sender or of another consumer provoked by add_stream is a side effect on the existing streams (C09)
-    return generic_check("C10", tier, ["C01C02", "C03", "C06", "C01C06", "C01C07", "C14", "C07C14", "C09"], scns, plans_for(tier), RULE_CONC + RULE_IMPL,
+    return generic_check("C10", tier, ["C01C02", "C03", "C06", "C01C06", "C01C07", "C14", "C07C14", "C09", "C16"], scns, plans_for(tier), RULE_CONC + RULE_IMPL,
                          models=[impl_model_stage(["addsole", "adddouble", "addshared"], expect_fail=("addshared_1",))])
 
 
@@ -637,7 +637,8 @@ def check_C11(tier):
     caps = caps_for(tier)
     scns = (sc.remove_stream("C11", "bcast", caps=caps) + sc.remove_stream("C11", "bcast", caps=caps[:2], fut=True) +
             sc.add_vs_remove("C11x", caps=caps[:2]))
-    return generic_check("C11", tier, ["C11", "C06", "C03", "C01C02", "C08", "C14", "C07C08", "C07C14", "C01C06"], scns, plans_for(tier),
+    # a stream removal that makes somebody touch freed bookkeeping has done more than release the backpressure (C16)
+    return generic_check("C11", tier, ["C11", "C06", "C03", "C01C02", "C08", "C14", "C07C08", "C07C14", "C01C06", "C16"], scns, plans_for(tier),
                          RULE_CONC + RULE_IMPL, models=[impl_model_stage(["rmstream", "unsub2"])])
 
 
@@ -852,7 +853,7 @@ def churn_stage(wd, v, cov, tier):
     jobs = []
     for fam in ("bcast", "mpmc"):
         for fut in (False, True):
-            for extra in ([], ["--early-drop"], ["--traffic"], ["--no-receivers"]):
+            for extra in ([], ["--early-drop"], ["--traffic"], ["--no-receivers"], ["--quiet-bursts"]):
                 for cap in ((4,) if tier == "quick" else (1, 4, 9)):
                     tag = "churn_%s%s_c%d%s" % (fam, "F" if fut else "", cap, "".join(extra).replace("--", "_"))
                     out = os.path.join(wd, tag + ".api.ndjson")
